@@ -1,19 +1,23 @@
 #!/bin/bash
 # usage: eval_seed.sh <patch.diff> <tier> <PID> [PID...]
-# applies a candidate breaking change to /repo, runs the named checks, and ALWAYS restores /repo.
+# applies a candidate change to the repository under test, runs the named checks, and ALWAYS restores the repository.
+# The repository is /repo unless VERIF_REPO names a scratch checkout (used for a second, parallel evaluation lane:
+# a git worktree of /verif plus a git worktree of /repo, so that nothing touches /repo or /verif/sim/Cargo.toml).
 patch=$1; tier=$2; shift 2
-cd /repo || exit 2
+here="$(cd "$(dirname "$0")" && pwd)"
+repo=${VERIF_REPO:-/repo}
+cd $repo || exit 2
 if [ -n "$(git status --porcelain --untracked-files=no)" ]; then echo "repo not clean"; exit 2; fi
 git apply "$patch" || { echo "patch does not apply"; exit 2; }
-trap 'git -C /repo checkout -- . ; git -C /repo clean -fdq -e target' EXIT
+trap 'git -C $repo checkout -- . ; git -C $repo clean -fdq -e target' EXIT
 if [ "${RUN_SUITE:-1}" = "1" ]; then
   echo "suite: $(cargo test --offline 2>&1 | grep -E '^test result' | head -1)"
 fi
-cd /verif
+cd $here
 for p in "$@"; do
   s=$(date +%s)
   out=$(./check $p $tier 2>&1); rc=$?
   e=$(date +%s)
   echo "== $p rc=$rc $((e-s))s"
-  echo "$out" | grep -E "^(VIOLATION|KNOWN|HARNESS|  scenario)" | head -8
+  echo "$out" | grep -E "^(VIOLATION|KNOWN|HARNESS|NOTE|  scenario)" | head -8
 done
